@@ -23,24 +23,30 @@ def R(ns, ranks, rename=None, **kw):
 G3_ASC   = rmask(3, [0, 2], lambda s, p, ch: s == 0 or ch[0] < ch[1])                                                # g(c,d)->p with c < d (9 binary rules)
 G3_DIAG  = rmask(3, [0, 2], lambda s, p, ch: s == 0 or ch[0] == ch[1])                                               # g(c,c)->p (9 binary rules)
 G3_ASC12 = rmask(3, [0, 2], lambda s, p, ch: s == 0 or ch[0] < ch[1] or (ch[0] == ch[1] and p == ch[0]))              # ascending pairs (9) + g(q,q)->q (3)
+# sub-universes of U(4, {a/0, u/1}) (4 leaf rules + 16 unary rules): the 6 forward rules u(qi)->qj, i < j, (14 bits) / forward rules and
+# self loops (18 bits): third red-team round - lost removals in the LTS engine need a second refinement round, i.e. 4 states
+U4_FWD  = rmask(4, [0, 1], lambda s, p, ch: s == 0 or ch[0] < p)
+U4_FWDL = rmask(4, [0, 1], lambda s, p, ch: s == 0 or ch[0] <= p)
 HEAVY = {'_heavy': 1, '_mem_gb': 16, '_time': 2400}
 
 QUICK = [
+  R(4, [0, 1], RMASK=U4_FWD, _time=1500),
   R(2, [0, 1]), R(2, [0, 1], rename=[5, 2]), R(2, [0, 0, 1], PERM=1), R(2, [0, 2], rename=[1, 0]), R(2, [0, 1, 2]),
   R(3, [0, 1]), R(3, [0, 1], rename=[7, 0, 3]), R(3, [0, 1], PERM=1), R(3, [0, 0, 1], rename=[4, 9, 1]), R(3, [0, 2], RMASK=G3_ASC),
 ]
 THOROUGH = QUICK + [
   R(2, [0, 1, 2], rename=[9, 4]), R(2, [0, 0, 1, 2], **HEAVY), R(3, [0, 0, 1], PERM=1, **HEAVY), R(3, [0, 2], rename=[2, 8, 5], RMASK=G3_DIAG), R(2, [0, 0, 2], PERM=1),
   R(3, [0, 2], RMASK=G3_ASC12, **HEAVY),
+  R(4, [0, 1], RMASK=U4_FWDL, **HEAVY),
 ]
 
 CHECKS = {
  'C05': {
   'level': 'model_checking',
   'explanation': 'ExplicitTreeAut::Reduce() executed symbolically on every automaton whose rules are drawn from the rule universe of the configuration (presence bit per rule, finality bit per state), built with dense, permuted (concrete or symbolic permutation) or sparse concrete state numbers; the returned automaton is decoded by iterating its transitions and final states and compared with the input: language equality by two macro-state inclusion oracles, number of occurring states and number of rules not larger, every state of the result is a state of the input (the representative chosen by the quotient projection), operand unchanged.',
-  'bounds': {'quick': 'automata over 2 states with {a/0,f/1} (dense and sparse {5,2}), {a/0,b/0,f/1} (symbolic numbering), {a/0,g/2} (swapped), {a/0,f/1,g/2}; over 3 states with {a/0,f/1} (dense, sparse {7,0,3}, symbolic numbering), {a/0,b/0,f/1} (sparse {4,9,1}), and {a/0,g/2} restricted to the 9 binary rules with ascending children; all rule subsets and final sets (8..18 free bits per query)',
-             'thorough': 'as quick plus 2 x {a/0,f/1,g/2} sparse, 2 x {a/0,b/0,f/1,g/2}, 3 x {a/0,b/0,f/1} with symbolic numbering, two further sub-universes of 3 x {a/0,g/2} (9 rules g(c,c)->p with sparse numbers {2,8,5}; 12 rules), 2 x {a/0,b/0,g/2} with symbolic numbering'},
-  'outside': 'more than 3 states, rank > 2, 3 states with a binary symbol outside the listed sub-universes, one symbol used with two ranks, automata sharing storage with other automata (see C11), ReduceParam relations other than TA_DOWNWARD (none is implemented)',
+  'bounds': {'quick': 'automata over 2 states with {a/0,f/1} (dense and sparse {5,2}), {a/0,b/0,f/1} (symbolic numbering), {a/0,g/2} (swapped), {a/0,f/1,g/2}; over 3 states with {a/0,f/1} (dense, sparse {7,0,3}, symbolic numbering), {a/0,b/0,f/1} (sparse {4,9,1}), and {a/0,g/2} restricted to the 9 binary rules with ascending children; all rule subsets and final sets (8..18 free bits per query); third red-team round: 4 states with {a/0,u/1} restricted to the leaf rules and the 6 forward rules u(qi)->qj, i < j (14 bits)',
+             'thorough': 'as quick plus 2 x {a/0,f/1,g/2} sparse, 2 x {a/0,b/0,f/1,g/2}, 3 x {a/0,b/0,f/1} with symbolic numbering, two further sub-universes of 3 x {a/0,g/2} (9 rules g(c,c)->p with sparse numbers {2,8,5}; 12 rules), 2 x {a/0,b/0,g/2} with symbolic numbering; 4 states with {a/0,u/1}, forward rules and self loops (18 bits)'},
+  'outside': 'more than 3 states (4 outside the forward-chain sub-universes over one unary symbol), rank > 2, 3 states with a binary symbol outside the listed sub-universes, one symbol used with two ranks, automata sharing storage with other automata (see C11), ReduceParam relations other than TA_DOWNWARD (none is implemented)',
   'harnesses': [
     {'name': 'reduce', 'src': 'harness/C05/reduce.cc', 'tus': TREE_INCL,
      'configs': {'quick': QUICK, 'thorough': THOROUGH},
